@@ -86,7 +86,12 @@ def _dump(ds):
             src["created"] = cu
         if json.dumps(m, sort_keys=True, default=str) != json.dumps(md, sort_keys=True, default=str):
             raise Violation(f"bucket {bid!r}: buckets() says {m!r}, metadata() says {md!r}")
-        out[bid] = (m, evs)
+        out[bid] = (json.loads(json.dumps(m, default=str)), evs)
+        # what the store handed out is the caller's to scribble on: later listings must not show it
+        for src in (m, md):
+            if isinstance(src.get("data"), dict):
+                src["data"]["__scribble"] = [1]
+            src["hostname"] = "__scribbled"
     return out
 
 
@@ -238,7 +243,54 @@ EXHAUSTIVE_NOTE = f"extra phase 'small_scope': every history of length <= L over
 
 
 def extra_phases(tier, seed, jobs):
-    return [("small_scope", "phase_small_scope", [{"i": i, "n": jobs, "L": 3 if tier == "quick" else 4} for i in range(jobs)])]
+    big = [{"backend": be, "n": {"memory": 1500}.get(be, 10500 if tier == "quick" else 25000)} for be in stores.BACKENDS]
+    return [
+        ("small_scope", "phase_small_scope", [{"i": i, "n": jobs, "L": 3 if tier == "quick" else 4} for i in range(jobs)]),
+        ("large_bucket", "phase_large_bucket", big),
+    ]
+
+
+def phase_large_bucket(task):
+    """a bucket with many thousands of events is deleted (with a younger bucket next to it) and created again: it must come back empty"""
+    from datetime import timedelta
+
+    from aw_core.models import Event
+
+    st_ = Stats()
+    be, n = task["backend"], task["n"]
+    case = {"kind_note": "large bucket", "backend": be, "n": n}
+    try:
+        with stores.store(be) as ds:
+            with sut(f"{be}: large bucket lifecycle"):
+                keep = stores.create_bucket(ds, "keep")
+                keep.insert(Event(timestamp=gen.dt_utc(BASE_US), duration=1, data={"k": "keep"}))
+                big = stores.create_bucket(ds, "big")
+                big.insert([Event(timestamp=gen.dt_utc(BASE_US + i * 1000), duration=timedelta(milliseconds=1), data={"i": i}) for i in range(n)])
+                if big.get_eventcount() != n:
+                    raise Violation(f"{be}: {n} events inserted, {big.get_eventcount()} counted")
+                ds.delete_bucket("big")
+                if "big" in ds.buckets():
+                    raise Violation(f"{be}: deleted bucket still listed")
+                again = stores.create_bucket(ds, "big")
+                left = again.get_eventcount()
+                listed = len(again.get(limit=-1))
+                if left or listed:
+                    raise Violation(f"{be}: a bucket of {n} events was deleted and created again: it lists {listed} events (count {left}) instead of starting empty")
+                if len(ds["keep"].get(limit=-1)) != 1:
+                    raise Violation(f"{be}: deleting the large bucket changed another bucket")
+    except Violation as v:
+        st_.failure = {"kind": "large", "case": case, "message": v.msg}
+        return st_
+    st_.evals = n
+    st_.classes[be] = 1
+    st_.notes["events"] = n
+    return st_
+
+
+def replay_large(p):
+    r = phase_large_bucket({"backend": p["backend"], "n": p["n"]})
+    if r.failure:
+        raise Violation(r.failure["message"])
 
 
 def phase_small_scope(task):
